@@ -1,6 +1,6 @@
 (* Dispatcher: one protocol line in, one observation line out.  This is the function the
    extracted driver (ocaml/driver.ml) and the in-Coq cross-check (Eval vm_compute) both run. *)
-From OA Require Import Bytes Proto ErrorCodes DevicePoll DeviceKinds.
+From OA Require Import Bytes Proto ErrorCodes DevicePoll DeviceKinds FormUrlencoded Base64 Sha256 Requests Pkce AuthUrl ReqSpec.
 From Coq Require Import ZArith.
 
 Definition run_c14 (ws : list bytes) : bytes :=
@@ -27,6 +27,13 @@ Definition run_c14 (ws : list bytes) : bytes :=
       | _, _, _ => bad_case
       end
   | _ => bad_case
+  end.
+
+
+Fixpoint split_bar (ws : list bytes) : list bytes * list bytes :=
+  match ws with
+  | [] => ([], [])
+  | w :: r => if is_kw "|" w then ([], r) else let (a, b) := split_bar r in (w :: a, b)
   end.
 
 
@@ -120,12 +127,6 @@ Fixpoint obs_events (ws : list bytes) : option (list event) :=
       end
   end.
 
-Fixpoint split_bar (ws : list bytes) : list bytes * list bytes :=
-  match ws with
-  | [] => ([], [])
-  | w :: r => if is_kw "|" w then ([], r) else let (a, b) := split_bar r in (w :: a, b)
-  end.
-
 Definition monitor_poll (ws : list bytes) : bytes :=
   let (cw, ow) := split_bar ws in
   match parse_poll_case cw, ow with
@@ -151,11 +152,252 @@ Definition monitor_poll (ws : list bytes) : bytes :=
   | _, _ => bad_case
   end.
 
+(* ---------------------------------------------------------------- C01 / C02 / C03 / C13 requests *)
+
+Definition tok_pairs (l : list pair) : bytes :=
+  match l with
+  | [] => ["."%char]
+  | _ => join [";"%char] (map (fun p => tok_bytes (fst p) ++ "="%char :: tok_bytes (snd p)) l)
+  end.
+Definition untok_pair (t : bytes) : option pair :=
+  match split_on "="%char t with
+  | [a; b] => match untok_bytes a, untok_bytes b with
+              | Some a, Some b => Some (a, b)
+              | _, _ => None
+              end
+  | _ => None
+  end.
+Definition untok_pairs (t : bytes) : option (list pair) :=
+  match t with
+  | ["."%char] => Some []
+  | _ => sequence_opt (map untok_pair (split_on ";"%char t))
+  end.
+
+Definition effective_redirect (default override : option bytes) : option bytes :=
+  match override with Some o => Some o | None => default end.
+
+Definition parse_kind (kind a1 a2 a3 scopes : bytes) (default_redirect : option bytes)
+  : option req_kind :=
+  match untok_list scopes with
+  | None => None
+  | Some sc =>
+      if is_kw "code" kind then
+        match untok_bytes a1, untok_opt a2, untok_opt a3 with
+        | Some c, Some v, Some o => Some (KCode c v (effective_redirect default_redirect o))
+        | _, _, _ => None
+        end
+      else if is_kw "refresh" kind then option_map (fun t => KRefresh t sc) (untok_bytes a1)
+      else if is_kw "password" kind then
+        match untok_bytes a1, untok_bytes a2 with
+        | Some u, Some p => Some (KPassword u p sc)
+        | _, _ => None
+        end
+      else if is_kw "cc" kind then Some (KClientCreds sc)
+      else if is_kw "devauth" kind then Some (KDeviceAuth sc)
+      else if is_kw "devtoken" kind then option_map KDeviceToken (untok_bytes a1)
+      else if is_kw "introspect" kind then
+        match untok_bytes a1, untok_opt a2 with
+        | Some t, Some h => Some (KIntrospect t h)
+        | _, _ => None
+        end
+      else if is_kw "revoke" kind then
+        match untok_bytes a1, untok_opt a3 with
+        | Some t, Some h =>
+            if is_kw "A" a2 then Some (KRevoke t (Some (s2b "access_token")))
+            else if is_kw "R" a2 then Some (KRevoke t (Some (s2b "refresh_token")))
+            else if is_kw "C" a2 then Some (KRevoke t h)
+            else None
+        | _, _ => None
+        end
+      else None
+  end.
+
+Definition render_req (r : http_req) : bytes :=
+  unwords [s2b "ok"; tok_bytes (rq_method r); tok_bytes (rq_target r);
+           tok_pairs (rq_headers r); tok_bytes (rq_body r)].
+
+(* headers in sorted order of their (lower-case) names: accept, authorization, content-type *)
+Definition sort_headers (h : list (bytes * bytes)) : list (bytes * bytes) :=
+  filter (fun p => bytes_eqb (fst p) (s2b "accept")) h
+  ++ filter (fun p => bytes_eqb (fst p) (s2b "authorization")) h
+  ++ filter (fun p => bytes_eqb (fst p) (s2b "content-type")) h.
+
+Record req_case := { rc_creds : creds; rc_ep : endpoint; rc_kind : req_kind; rc_extra : list pair }.
+
+Definition parse_req_case (ws : list bytes) : option req_case :=
+  match ws with
+  | [_variant; kind; auth; id; secret; _urlorig; urltext; uriok; scheme; defred;
+     a1; a2; a3; scopes; extras] =>
+      match untok_bytes id, untok_opt secret, untok_bytes urltext, untok_bool uriok,
+            untok_bytes scheme, untok_opt defred, untok_pairs extras with
+      | Some id, Some secret, Some urltext, Some uriok, Some scheme, Some defred, Some extras =>
+          match parse_kind kind a1 a2 a3 scopes defred with
+          | None => None
+          | Some k =>
+              Some {| rc_creds := {| cr_auth := if is_kw "B" auth then BasicAuth else RequestBody;
+                                     cr_id := id; cr_secret := secret |};
+                      rc_ep := {| ep_text := urltext; ep_uri_ok := uriok; ep_scheme := scheme |};
+                      rc_kind := k; rc_extra := extras |}
+          end
+      | _, _, _, _, _, _, _ => None
+      end
+  | _ => None
+  end.
+
+(* RFC 7009: a revocation request exists only for an https endpoint (C13) *)
+Definition insecure_revoke (rc : req_case) : bool :=
+  match rc_kind rc with
+  | KRevoke _ _ => negb (bytes_eqb (ep_scheme (rc_ep rc)) (s2b "https"))
+  | _ => false
+  end.
+
+Definition run_req (ws : list bytes) : bytes :=
+  match parse_req_case ws with
+  | None => bad_case
+  | Some rc =>
+      if insecure_revoke rc then s2b "insecure calls=0"
+      else match request_of (rc_creds rc) (rc_ep rc) (rc_kind rc) (rc_extra rc) with
+           | Some r =>
+               render_req {| rq_method := rq_method r; rq_target := rq_target r;
+                             rq_headers := sort_headers (rq_headers r);
+                             rq_body := rq_body r |} ++ s2b " calls=1"
+           | None => s2b "other calls=0"
+           end
+  end.
+
+Definition parse_obs_req (ow : list bytes) : option http_req :=
+  match ow with
+  | [_ok; m; t; h; b; _calls] =>
+      match untok_bytes m, untok_bytes t, untok_pairs h, untok_bytes b with
+      | Some m, Some t, Some h, Some b =>
+          Some {| rq_method := m; rq_target := t; rq_headers := h; rq_body := b |}
+      | _, _, _, _ => None
+      end
+  | _ => None
+  end.
+
+(* which : true = C01 statement, false = C02 statement *)
+Definition monitor_req (which : bool) (ws : list bytes) : bytes :=
+  let (cw, ow) := split_bar ws in
+  match parse_req_case cw with
+  | None => bad_case
+  | Some rc =>
+      match ow with
+      | [a; b] =>
+          if is_kw "insecure" a && is_kw "calls=0" b then
+            (if insecure_revoke rc then s2b "ok" else s2b "fail insecure-for-https")
+          else if is_kw "other" a && is_kw "calls=0" b then
+            (if negb (insecure_revoke rc) && negb (ep_uri_ok (rc_ep rc)) then s2b "ok"
+             else s2b "fail no-request-built")
+          else s2b "fail unexpected-outcome"
+      | [okw; _; _; _; _; calls] =>
+          if negb (is_kw "ok" okw) then bad_case
+          else if negb (is_kw "calls=1" calls) then s2b "fail http-client-call-count"
+          else if insecure_revoke rc then s2b "fail request-sent-to-insecure-endpoint"
+          else if negb (ep_uri_ok (rc_ep rc)) then s2b "fail request-for-unbuildable-url"
+          else match parse_obs_req ow with
+               | None => bad_case
+               | Some r =>
+                   if which then
+                     (if c01_okb (rc_creds rc) (rc_ep rc) (rc_kind rc) (rc_extra rc) r
+                      then s2b "ok" else s2b "fail c01")
+                   else
+                     (if c02_okb (rc_creds rc) (rc_ep rc) (rc_extra rc) r
+                      then s2b "ok" else s2b "fail c02")
+               end
+      | [p] => if is_kw "PANIC" p then s2b "fail panic" else bad_case
+      | _ => s2b "fail unexpected-outcome"
+      end
+  end.
+
+Definition parse_auth_op (t : bytes) : option auth_op :=
+  match split_on ":"%char t with
+  | [k; a] =>
+      if is_kw "S" k then option_map AddScope (untok_bytes a)
+      else if is_kw "SS" k then option_map AddScopes (untok_list a)
+      else if is_kw "R" k then option_map SetResponseType (untok_bytes a)
+      else if is_kw "U" k then option_map SetRedirect (untok_bytes a)
+      else if is_kw "P" k then
+        match untok_bytes a with
+        | Some v => match from_verifier_sha256 v with POk c => Some (SetPkce c) | PPanic => None end
+        | None => None
+        end
+      else if is_kw "PP" k then
+        match untok_bytes a with
+        | Some v => match from_verifier_plain v with POk c => Some (SetPkce c) | PPanic => None end
+        | None => None
+        end
+      else None
+  | [k; a; b] =>
+      if is_kw "E" k then
+        match untok_bytes a, untok_bytes b with
+        | Some a, Some b => Some (AddExtra a b)
+        | _, _ => None
+        end
+      else None
+  | [k] => if is_kw "I" k then Some UseImplicit else None
+  | _ => None
+  end.
+
+Definition parse_auth_ops (t : bytes) : option (list auth_op) :=
+  match t with
+  | ["."%char] => Some []
+  | _ => sequence_opt (map parse_auth_op (split_on ";"%char t))
+  end.
+
+Record authurl_case := {
+  ac_ep : abs_url; ac_id : bytes; ac_defred : option bytes; ac_state : bytes; ac_ops : list auth_op
+}.
+Definition parse_authurl_case (ws : list bytes) : option authurl_case :=
+  match ws with
+  | [_urlorig; prefix; query; fragment; id; defred; state; ops] =>
+      match untok_bytes prefix, untok_opt query, untok_opt fragment, untok_bytes id,
+            untok_opt defred, untok_bytes state, parse_auth_ops ops with
+      | Some prefix, Some query, Some fragment, Some id, Some defred, Some state, Some ops =>
+          Some {| ac_ep := {| u_prefix := prefix; u_query := query; u_fragment := fragment |};
+                  ac_id := id; ac_defred := defred; ac_state := state; ac_ops := ops |}
+      | _, _, _, _, _, _, _ => None
+      end
+  | _ => None
+  end.
+
+Definition run_authurl (ws : list bytes) : bytes :=
+  match parse_authurl_case ws with
+  | Some ac =>
+      let (r0, calls) := authorize_url (ac_ep ac) (ac_id ac) (ac_defred ac)
+                                       (fun _ => ac_state ac) 0 in
+      let (u, st) := url_of (fold_left apply_auth_op (ac_ops ac) r0) in
+      unwords [tok_bytes (u_prefix u); tok_opt (u_query u); tok_opt (u_fragment u);
+               tok_bytes st; s2b "calls=" ++ dec_of_N (N.of_nat calls); tok_bytes (url_text u)]
+  | None => bad_case
+  end.
+
+Definition monitor_authurl (ws : list bytes) : bytes :=
+  let (cw, ow) := split_bar ws in
+  match parse_authurl_case cw, ow with
+  | Some ac, [p; q; f; st; calls; _text] =>
+      match untok_bytes p, untok_opt q, untok_opt f, untok_bytes st with
+      | Some p, Some q, Some f, Some st =>
+          let n := if is_kw "calls=1" calls then 1%nat else 0%nat in
+          if c03_okb (ac_ep ac) (ac_id ac) (ac_state ac) (ac_defred ac) (ac_ops ac) 0
+                     {| u_prefix := p; u_query := q; u_fragment := f |} st n
+          then s2b "ok" else s2b "fail c03"
+      | _, _, _, _ => bad_case
+      end
+  | Some _, [p] => if is_kw "PANIC" p then s2b "fail panic" else bad_case
+  | _, _ => bad_case
+  end.
+
 Definition run_line (line : bytes) : bytes :=
   match words line with
   | p :: ws =>
       if is_kw "C14" p then run_c14 ws
       else if is_kw "POLL" p then run_poll ws
+      else if is_kw "REQ" p then run_req ws
+      else if is_kw "AUTHURL" p then run_authurl ws
+      else if is_kw "REQM1" p then monitor_req true ws
+      else if is_kw "REQM2" p then monitor_req false ws
+      else if is_kw "AUTHURLM" p then monitor_authurl ws
       else if is_kw "POLLM" p then monitor_poll ws
       else if is_kw "BOUNDS" p then
         unwords [dec_of_N MAXDELTA; dec_of_Z DTMAX; dec_of_Z DTMIN; dec_of_N DMAX]
